@@ -16,8 +16,8 @@ Definition rm (mt : list (string * string)) (r v : string) : bool :=
 (* short constructors used by the case writer *)
 Definition R (n : string) (nf fr : option string) (vs : list string) (ll lr : option string) : reqattr :=
   {| ra_name := n; ra_nf := nf; ra_friendly := fr; ra_values := vs; ra_loc_l := ll; ra_loc_r := lr |}.
-Definition S (ar : option restr) (fail : option bool) (ecs : list string) : section :=
-  {| s_ar := ar; s_fail := fail; s_ecs := ecs |}.
+Definition S (ar : option restr) (fail : option bool) (ecs : list string) (bare : bool) : section :=
+  {| s_ar := ar; s_fail := fail; s_ecs := ecs; s_bare := bare |}.
 Definition M (ras : list (reqattr * option string)) (sid : option string) (sidloc : option string * option string)
            (ecs : list string) (ra : option string) : mdinfo :=
   {| md_ras := ras; md_sid := sid; md_sid_loc := sidloc; md_ecs := ecs; md_ra := ra |}.
